@@ -68,6 +68,11 @@ GH_W = [('unsigned long', 'B0', 'g_bytes'), ('unsigned long', 'W0', '$this->m_bl
         ('unsigned long', 'N0', ITEMS.replace('$B', '&$this->m_block')), ('unsigned long', 'Q0', '$this->m_block.m_query_responses.n'),
         ('unsigned long', 'A0', '$this->m_block.m_address_event_counts.n'), ('unsigned long', 'MM0', '$this->m_block.m_malformed_messages.n')]
 UNCHANGED = '($this->m_block.m_query_responses.n == @Q0 && $this->m_block.m_address_event_counts.n == @A0 && $this->m_block.m_malformed_messages.n == @MM0)'
+# the new block is armed with the *current* content of the active parameter set (stated for the watched element of the preamble's list)
+_SPW = '$this->m_file_preamble.m_block_parameters.wv.storage_parameters'
+_SPB = '$this->m_block.m_block_parameters.storage_parameters'
+REARMED = '(' + ' && '.join('%s.%s == %s.%s' % (_SPB, f, _SPW, f) for f in ('ticks_per_second', 'max_block_items', 'storage_hints.query_response_hints',
+           'storage_hints.query_response_signature_hints', 'storage_hints.rr_hints', 'storage_hints.other_data_hints')) + ')'
 WB_C = '''
 __CPROVER_requires(__CPROVER_w_ok($this, sizeof(*$this)) && g_exc == 0)
 __CPROVER_requires(''' + INV2 + ''' && ''' + BOUNDS + ''')
@@ -78,6 +83,7 @@ __CPROVER_ensures(g_exc == 0 ==> (''' + EMPTYBLK.replace('$B', '&$this->m_block'
 __CPROVER_ensures(g_exc == 0 ==> $this->m_block.m_block_preamble.block_parameters_index.has && $this->m_block.m_block_preamble.block_parameters_index.val == $this->m_active_block_parameters)
 __CPROVER_ensures((g_exc == 0 && @N0 == 0) ==> ($ret == 0 && $this->m_blocks_written == @W0 && g_bytes == @B0))
 __CPROVER_ensures((g_exc == 0 && @N0 != 0) ==> ($ret != 0 && $ret == g_bytes - @B0 && $this->m_blocks_written == @W0 + 1))
+__CPROVER_ensures((g_exc == 0 && $this->m_active_block_parameters == $this->m_file_preamble.m_block_parameters.wi) ==> ''' + REARMED + ''')
 '''
 BLK_INL = [('CdnsBlock::clear', None), ('CdnsBlock::set_block_parameters', None), ('CdnsBlock::get_item_count', None),
            ('FilePreamble::get_block_parameters', None), ('Timestamp::Timestamp', 'void (uint64_t, uint64_t)')]
